@@ -127,3 +127,51 @@ NOT_APPLICABLE = {
     "C18": "validity of the reconstructed PV is the same table-history invariant as C06",
     "C19": "run-to-run reproducibility (timing, memory layout, iteration order) is not a functional contract a deductive verifier can observe",
 }
+
+# =================================================================================================
+# C20 -- the move record shows what was played
+# =================================================================================================
+prop("C20",
+     level="proof",
+     explanation="Contract of Move::pgn_notation against spec::record_text for every move value of every kind (piece letter, origin "
+                 "file, x iff capture, destination, =Q/R/B/N, O-O, O-O-O), fully symbolic fields; Game::get_pgn's numbering loop body as "
+                 "a slice; Piece::as_char distinct glyph per piece. The board diagram loop of Display (64 write! calls through "
+                 "core::fmt) and the loop headers are glue: not machine-checked.",
+     assumptions=["String/core::fmt code of std is verified along the executed paths only (Kani's std models)",
+                  "the Hash:/Fen:/PGN: lines of Display print self.hash, self.fen(), self.get_pgn() (read; C04, C11 cover those values)"],
+     not_machine_checked=["Display for Game: diagram loop (row/column order)", "get_pgn loop header / collect()"])
+_F20 = ["Move::pgn_notation", "Piece::as_str_pgn"]
+for _n, _st in [("normal_pawn_quiet", "pawn push"), ("normal_pawn_capture", "pawn capture"), ("normal_piece_quiet", "piece move"),
+                ("normal_piece_capture", "piece capture")]:
+    ob("c20_record_" + _n, "chess::move_struct::verif_move::c20_record_" + _n, ["C20"],
+       f"forall piece, start != end, captured ({_st} case of a 4-way partition): pgn_notation(Normal) == [letter] origin-file [x] destination",
+       _F20, timeout=600)
+for _n in ["quiet", "capture"]:
+    ob("c20_record_promotion_" + _n, "chess::move_struct::verif_move::c20_record_promotion_" + _n, ["C20"],
+       f"forall owner, new_piece in QRBN, start, end, captured ({_n} case): pgn_notation(Promotion) == origin-file [x] destination = piece",
+       _F20, timeout=600)
+ob("c20_record_castling_short", "chess::move_struct::verif_move::c20_record_castling_short", ["C20"], "O-O for either owner", _F20, timeout=300)
+ob("c20_record_castling_long", "chess::move_struct::verif_move::c20_record_castling_long", ["C20"], "O-O-O for either owner", _F20, timeout=300)
+ob("c20_record_enpassant", "chess::move_struct::verif_move::c20_record_enpassant", ["C20"],
+   "e.p. as origin-file x destination-file rank(6|3) for every owner / file pair", _F20, timeout=600)
+
+# =================================================================================================
+# C02 -- playing a move produces the prescribed position
+# =================================================================================================
+_FPUSH = ["Game::push", "Game::set_position", "Game::set_king_position", "Game::state", "Game::get_position",
+          "GameState::set_en_passant", "GameState::set_*_castling_false", "GameState::hash", "Piece::score", "Piece::hash",
+          "Position::new_assert", "Position::as_usize"]
+prop("C02",
+     level="proof",
+     explanation="Contract of Game::push per move kind against spec::apply (the successor the rules prescribe): for every symbolic "
+                 "board, state byte, side and every move value satisfying the weakest shape precondition (implied by membership in the "
+                 "generated list + WF), the successor view equals spec::apply at an arbitrary square, side, each castling right, and the "
+                 "e.p. file (set iff a double push lands beside an enemy pawn); one state entry is added and earlier entries are untouched; "
+                 "king cache preserved. WF6 (right => king and rook at home) preservation is a separate obligation. 'Sequences of any length' "
+                 "is the induction over WF (DESIGN.md 3.3).",
+     assumptions=["state stack depth instantiated at 2 (arrayvec push_unchecked/last are length-generic library code)",
+                  "score bound |score| <= 10700 from the material bound (lemma score_tables_bounded + paper step, DESIGN.md 3.3)"])
+for _k in ["normal", "promotion", "enpassant", "castling_short", "castling_long"]:
+    ob("push_contract_" + _k, "chess::verif_chess::push_contract_" + _k, ["C02"],
+       f"forall game, {_k} move with shape pre + WF6: view(push(g,m)) == spec::apply(view(g), m); len+1; earlier entries kept; king cache kept",
+       _FPUSH, timeout=900)
